@@ -70,6 +70,26 @@ CHECKS = {
         technique="exhaustive enumeration of single-edge graphs x max_iter x tolerance; result checked as unit-norm non-negative approximate fixed point of the documented iteration with a derived bound",
         text="All single-edge graphs (directed n<=4 with loop placements at n<=3, undirected n<=5; unweighted and weights {0,1,2}) x max_iter in {1,2,5,100,1000} x tolerance in {1e-2,1e-6,1e-12}: an Ok result must have one entry per node, non-negative entries, Euclidean norm 1 (1e-9), and one further step x -> normalise(x + A^T x) may move it by at most 2(1+||A||_F) n tol (derived, not tuned); an Err must be PowerIterationFailedConvergence.",
         note="Trusted: the bound derivation (DESIGN §5 C18). Which inputs converge is not asserted."),
+    "C13": dict(
+        engine=E2+" x E3", category="model_checking", design_ref="DESIGN.md §5 C13",
+        technique="exhaustive enumeration of small input graphs x deviation-bounded exploration of hash-order choice points; liveness by lasso / horizon detection on the observed sweep-state sequence; safety oracle on every returned level list",
+        text="Every graph with >= 1 edge of the families (all kinds n<=3, undirected n<=4/5, directed n<=4; unweighted and weights {1,2}) x weighted x resolution in {0.5,1,2} x threshold in {0,1e-7,0.1} x seeds; for each input the iteration order of the candidate-community map is a choice point explored to the reported deviation bound. A feature-guarded observer exposes the local-moving state at the top of every sweep, so non-termination is found as a repeated state (lasso) or a horizon overrun instead of a timeout, and is reported only if no explored order terminates and the free-running code does not either. Every returned result must be a non-empty list of partitions, each a coarsening of the previous, with non-decreasing modularity (own Newman implementation) on single-edge graphs, and louvain_communities must equal the last level.",
+        note="Trusted: order seam + observer hooks (H2/H3), Newman oracle (C12's). Integer weights, so unseamed hash orders (aggregation edge order, degree sums) cannot change a result."),
+    "C16": dict(
+        engine="E6 skipping-walk chain explorer", category="model_checking", design_ref="DESIGN.md §5 C16",
+        technique="explicit-state exploration of the generator's cursor chain under an injected random source, every model transition replayed against the real generator; exact expectation by dynamic programming on the validated chain",
+        text="The random source is the environment: an injected RngCore dictates every geometric skip. For both kinds and every n up to the bound, every cursor state x every second skip (plus the largest skip a draw can produce, and all three-skip traces for small n) at five edge probabilities is run on the real generator and its whole emitted pair set compared with a linear-cell model of the published skipping scheme; on the validated chain the expected edge count is computed exactly (no sampling noise) and every possible pair must be emitted by some trace; extreme p (1e-300..1-1e-16) with dictated draws, argument validation, complete_graph for n=0..40,100,300 and the karate club against an embedded Zachary list.",
+        note="Trusted: rand 0.8's u64->f64 mapping (Standard), the 40-line cell model, the embedded Zachary list (from networkx). Seeded ChaCha runs are supplementary sampling (structure only)."),
+    "C17": dict(
+        engine=E2+" x E3", category="model_checking", design_ref="DESIGN.md §5 C17",
+        technique="deviation-bounded exhaustive exploration of every hash-map iteration order that carries a seam in Louvain, on tie-rich graphs; oracle: the set of results over all explored orders is a singleton",
+        text="louvain_partitions with a seed on graphs chosen to contain exact gain ties (paths, cycles, K4, K3,3, the cube, joined triangles, all small graphs; integer weights; thorough: inexact weights with the weight-sum order as an extra choice point): every permutation at every candidate-community iteration, to the reported deviation bound, must give one and the same list of partitions. Supplementary (sampled, labelled): the same calls, fast_gnp with a seed, and every non-randomised algorithm on real hash orders under several harness-chosen hash-key environments (interposed getrandom) and rayon pool sizes.",
+        note="Trusted: order seam hooks, getrandom interposition (self-tested at start-up). Hash sites without a seam only reorder float additions; exact with integer weights."),
+    "C20": dict(
+        engine=E2+" x API table", category="model_checking", design_ref="DESIGN.md §5 C20, Appendix D",
+        technique="exhaustive product of an API table of every externally reachable pub fn x 8 graph kinds x every small graph x every argument tuple, executed with overflow checks on; oracle: no panic / overflow / hang, absent name => Err/None",
+        text="A table of all 101 externally reachable functions (cross-checked at run time against `pub fn` in /repo/src, so a new API cannot escape) is called on every labelled graph with n<=2 (unweighted, weights {1,2}) and n=3 (unweighted) of all 8 kinds plus named degenerate n=4-5 shapes, with every argument tuple over the graph's names, all booleans, k=1..n+1, all subsets, option menus, and one absent name for functions with an error channel; built with overflow-checks and debug-assertions, Louvain sweeps observed so a hang is a finding not a timeout.",
+        note="Trusted: catch_unwind + panic hook capturing file:line; the sweep observer. Functions without an error channel get present names only, as the statement says."),
 }
 
 PENDING = {}
